@@ -485,8 +485,10 @@ class NumpyModel:
                     conds.append(("slice", k.affine[0], num_add(k.affine[0], k.shape[0])))
                 elif isinstance(k.shape[0], int) and k.shape[0] == 1:
                     conds.append(("slice", k.get(0), num_add(k.get(0), 1)))
+                elif not isinstance(val, Arr):
+                    conds.append(("member", k))       # scalar store through an arbitrary index array: position i is hit iff some k[r] == i
                 else:
-                    raise Unsupported("store through a general index array")
+                    raise Unsupported("store of an array value through a general index array")
                 out_dims += 1
             else:
                 conds.append(("fix", self.norm_index(st, k, n, node, "array store")))
@@ -495,6 +497,8 @@ class NumpyModel:
                 raise Unsupported("store value of too high rank")
             # shape compatibility (broadcast of leading dims allowed only when equal rank here)
             tgt_lens = [num_sub(c[2], c[1]) for c in conds if c[0] == "slice"]
+            if any(c[0] == "member" for c in conds):
+                raise Unsupported("store of an array value through a general index array")
             off = out_dims - val.rank
             for d in range(val.rank):
                 vd = val.shape[d]
@@ -519,14 +523,23 @@ class NumpyModel:
             def new_nan(*idx):
                 inside = []
                 for c, i in zip(conds, idx):
+                    if c[0] == "member":
+                        raise Unsupported("member store into a possibly-nan array")
                     inside.append(num_cmp("==", i, c[1]) if c[0] == "fix" else mk_and(num_cmp("<=", c[1], i), num_cmp("<", i, c[2])))
                 return mk_ite_bool(mk_and(*inside), vnan, old_nan(*idx))
+
+        def _member(k, i):
+            from .state import exists, fresh_int
+            r = fresh_int("r")
+            return exists([r], mk_and(r >= 0, num_cmp("<", r, k.shape[0]), num_cmp("==", k.get(r), i)))
 
         def get(*idx):
             inside, outs = [], []
             for c, i in zip(conds, idx):
                 if c[0] == "fix":
                     inside.append(num_cmp("==", i, c[1]))
+                elif c[0] == "member":
+                    inside.append(_member(c[1], i))
                 else:
                     inside.append(mk_and(num_cmp("<=", c[1], i), num_cmp("<", i, c[2])))
                     outs.append(num_sub(i, c[1]))
